@@ -405,7 +405,13 @@ func (t *Tables) printTables(hdr func(string) error, cb func(*Table) error) erro
 			}
 			val := key.Get(f)
 			if prevKey.IsZero() || val != prevKey.Get(f) {
-				if err := hdr(fmt.Sprintf("%s: %s", f.Name, val)); err != nil {
+				// An empty value is written "key:", as in the
+				// benchmark format, so that no line ends in a blank.
+				label := f.Name + ":"
+				if val != "" {
+					label += " " + val
+				}
+				if err := hdr(label); err != nil {
 					return err
 				}
 			}
